@@ -219,6 +219,9 @@ func (z *zipkinDecoderV2) decodeHexStr(hexStr []byte, leng int) ([]byte, error) 
 	return res, err
 }
 
+// maxZipkinNDJSONLine bounds one newline-delimited span.
+const maxZipkinNDJSONLine = 64 * 1024 * 1024
+
 type zipkinNDDecoderV2 struct {
 	*zipkinDecoderV2
 }
@@ -226,6 +229,8 @@ type zipkinNDDecoderV2 struct {
 func (z *zipkinNDDecoderV2) Decode() error {
 	scanner := bufio.NewScanner(z.ctx.bodyReader)
 	scanner.Split(bufio.ScanLines)
+	// a span (one line) may be larger than the scanner's default 64 KiB token limit
+	scanner.Buffer(make([]byte, 0, 64*1024), maxZipkinNDJSONLine)
 	for scanner.Scan() {
 		z.reset()
 		z.payload = append([]byte{}, scanner.Bytes()...)
@@ -233,6 +238,9 @@ func (z *zipkinNDDecoderV2) Decode() error {
 		if err != nil {
 			return custom_errors.NewUnmarshalError(err)
 		}
+	}
+	if err := scanner.Err(); err != nil {
+		return custom_errors.NewUnmarshalError(err)
 	}
 	return nil
 }
